@@ -23,7 +23,7 @@ pub const ASSUMPTIONS: &[&str] = &[
     "standalone Pair types are not generated: the blueprint only knows pairs as map entries",
 ];
 
-pub const RULE: &str = "redeemer types from the typed generator's serialisable fragment (user data types with several constructors and fields incl. records, generic instantiations and recursive ones, Option, lists, tuples, lists of pairs, Bool, Int, ByteArray, Void, Data, nested to depth 3); for each type 40 Data values: encodings of generated values of the type, near misses obtained by one mutation (constructor tag changed incl. into another CBOR tag range, a field dropped / added / swapped, a leaf kind changed, list <-> map, constructor <-> list, one more or fewer tuple element) and arbitrary Data. Non-trivial = the type has at least two constructors or a nested container and the value is a near miss below the root, or a conforming value with at least 3 nodes; distinct by (type declarations, value).";
+pub const RULE: &str = "redeemer types from the typed generator's serialisable fragment (user data types with several constructors and fields incl. records, generic instantiations and recursive ones, Option, lists, tuples, lists of pairs, Bool, Int, ByteArray, Void, Data, nested to depth 3); for each type 40 Data values: encodings of generated values of the type, the same values with constructor indices spelt in the general CBOR form (tag 102), near misses obtained by one mutation (constructor tag changed incl. into another CBOR tag range, a field dropped / added / swapped, a leaf kind changed, list <-> map, constructor <-> list, one more or fewer tuple element) and arbitrary Data. Non-trivial = the type has at least two constructors or a nested container and the value is a near miss below the root, or a conforming value with at least 3 nodes; distinct by (type declarations, value).";
 
 pub fn no_standalone_pair(t: &Ty, inside_list: bool) -> bool {
     match t {
@@ -189,6 +189,25 @@ pub fn mutate_data(src: &mut Src, d: &D, depth: usize) -> D {
     }
 }
 
+/// Re-spell some constructors with the general form `102 [index, fields]`: the same Data value.
+fn general_form(src: &mut Src, d: &uplc::PlutusData) -> uplc::PlutusData {
+    use pallas_primitives::alonzo::Constr;
+    use uplc::PlutusData as P;
+    match d {
+        P::Constr(c) => {
+            let fields: Vec<P> = c.fields.iter().map(|f| general_form(src, f)).collect();
+            let index = uplc::machine::runtime::convert_tag_to_constr(c.tag).or(c.any_constructor);
+            match index {
+                Some(i) if src.chance(2, 3) => P::Constr(Constr { tag: 102, any_constructor: Some(i), fields: pallas_codec::utils::MaybeIndefArray::Indef(fields) }),
+                _ => P::Constr(Constr { tag: c.tag, any_constructor: c.any_constructor, fields: pallas_codec::utils::MaybeIndefArray::Indef(fields) }),
+            }
+        }
+        P::Array(xs) => P::Array(pallas_codec::utils::MaybeIndefArray::Indef(xs.iter().map(|x| general_form(src, x)).collect())),
+        P::Map(kvs) => P::Map(pallas_codec::utils::KeyValuePairs::from(kvs.iter().map(|(k, v)| (general_form(src, k), general_form(src, v))).collect::<Vec<_>>())),
+        other => other.clone(),
+    }
+}
+
 struct Built {
     program: uplc::ast::Program<uplc::ast::NamedDeBruijn>,
     validator: Validator<uplc::ast::SerializableProgram>,
@@ -295,7 +314,8 @@ fn judge(src: &mut Src, st: &mut Stats) -> CheckResult {
     for (d, origin) in cases {
         let input = json!({"source": source, "type": ts, "data": d.show(), "origin": origin, "tracing": format!("{tracing:?}")});
         let c = it.from_data(&d, &t).is_some();
-        let pd = d.to_plutus();
+        // the same value may spell constructor indices in the general CBOR form (tag 102)
+        let pd = if src.chance(1, 6) { general_form(src, &d.to_plutus()) } else { d.to_plutus() };
         let a = no_panic(|| param.validate(&defs, &Constant::Data(pd.clone())).is_ok()).map_err(|p| panic_failure("Parameter::validate", p, input.clone()))?;
         let (out, _, _) = no_panic(|| aik::eval_with_args(&built.program, &[pd.clone()])).map_err(|p| panic_failure("eval(expect)", p, input.clone()))?;
         let b = matches!(out, Outcome::Value(_));
